@@ -58,16 +58,16 @@ CLAIMED = {
          "Less is a direct strict comparison of the two priorities (no overflowing arithmetic) and its orientation agrees with the reversed output loop and the reversed per-bar row collection; the fix arm is guarded by index >= 0, stores then fixes unless lazy; Swap/Push/Pop keep Bar.index consistent; default priority is the creation counter; successor inherits at the swap; pop priority assigned then advanced; API forwards (bar, priority, lazy).",
          NOTE + "Per-frame order under racing updates is not decided; container/heap is trusted.", "DESIGN.md §4 C06"),
  "C07": ("loop-termination classification (ranking arguments per natural loop, E5) + guarded-effect width accounting",
-         "Every natural loop on the render/heap path has a stated ranking argument (range, counting with provably positive loop-invariant step, two-pointer, drain), recursion only through data-bounded delegation; decorator text is written in full only under AvailableWidth - width >= 0, truncated only under AvailableWidth > 0, with the width accounted; spacers kept only with room; fillers return before writing when their width does not fit; every built-in Decor returns its Format width. A complete termination decision for library code assuming library callees terminate.",
+         "Every natural loop on the render/heap path has a stated ranking argument (range, counting with provably positive loop-invariant step, two-pointer, drain), recursion only through data-bounded delegation; decorator text is written in full only under AvailableWidth - width >= 0, truncated only under AvailableWidth > 0, with the width accounted; spacers kept only with room; fillers return before writing when their width does not fit (the brackets written around the body are exactly what is taken off the allotted width); every advance of the cell counter is guarded by the space left; style components are built as (StringWidth(x), []byte(x)) of one text; the statistics snapshot hands on the renderer's width; sizes come from the terminal query (columns, rows) or the requested width; every built-in Decor returns its Format width. A complete termination decision for library code assuming library callees terminate.",
          NOTE + "Display width of actual strings (runewidth semantics) is not computed.", "DESIGN.md §4 C07"),
  "C08": ("overflow taint + monotone-composition lattice + structural relation of fill/refill widths (E6)",
          "No integer product/shift of total/current/refill anywhere in the percentage path; negativity guard before int64->uint; every piece of the helper non-decreasing in current, full width at/after total, zero for total 0; wrapper rounds; filler relates filled and refill widths without further adjustment and accounts exactly the cells it appends; SetRefill caps at current.",
          NOTE + "Rounding to the nearest cell and the +-1 rune tolerance are arithmetic facts assumed, not decided.", "DESIGN.md §4 C08"),
  "C19": ("wrapper-transparency rules (E7) on SSA paths + method-set facts from go/types",
-         "Each forwarding method makes exactly one wrapped call with its argument passed through, returns (n, err) unchanged and accounts n exactly once on every path (timed Ewma flavour for the ewma proxies); constructors offer WriteTo/ReadFrom exactly on returns dominated by the successful assertion on the caller's value and pick the ewma flavour from the flag, which is len(ewmaDecorators) != 0; Close is promoted from the embedded interface; closers wrap or return the argument itself; the no-op closer preserves ReaderFrom. With C09 this is close to the whole property.",
+         "Each forwarding method makes exactly one wrapped call with its argument passed through, returns (n, err) unchanged and accounts n exactly once on every path (timed Ewma flavour for the ewma proxies); constructors (helpers inlined) offer WriteTo/ReadFrom exactly on paths with the successful assertion on the caller's value and return a type whose accounting methods (own and promoted) are all of the Ewma kind exactly under the flag, which is len(ewmaDecorators) != 0; Close is promoted from the embedded interface; closers wrap or return the argument itself; the no-op closer preserves ReaderFrom. With C09 this is close to the whole property.",
          NOTE + "io.NopCloser is trusted; the bar-side counting rules are C09.", "DESIGN.md §4 C19"),
- "C20": ("table agreement (E9) + divisor guards and overflow taint (E6) + estimator conservation by path enumeration",
-         "Unit chosen on every path of both size formats is the greatest threshold reached, suffix is that unit's name, tables are siblings; no integer product in the percentage path; every float division has a non-zero divisor on every path; each EwmaUpdate conserves time (carry or add-and-reset, siblings agree); samples reach every estimator through the recursive unwrap; wrappers implement Unwrap; elapsed/average speed freeze after completion; h/m/s components are (d/unit)%60.",
+ "C20": ("table agreement (E9) + divisor guards and overflow taint (E6) + estimator conservation by path enumeration + algebraic normal forms of the printed quantities",
+         "Unit chosen on every path of both size formats is the greatest threshold reached, suffix is that unit's name, tables are siblings; no integer product in the percentage path; every float division has a non-zero divisor on every path; each EwmaUpdate conserves time (carry or add-and-reset, siblings agree); samples reach every estimator through the recursive unwrap; wrappers implement Unwrap; elapsed/average speed freeze after completion; h/m/s components are (d/unit)%60; the quantity each rate/ETA decorator prints has the documented normal form (coefficient x powers of current, total-current, elapsed, moving average - conversions, rounding and Seconds() transparent); counters and speed producers print the documented quantities in the selected unit.",
          NOTE + "Read-back accuracy of printed numbers and printf verb handling are value-level and not decided.", "DESIGN.md §4 C20"),
 }
 PENDING_REASON = "check not built yet (DESIGN.md §7: a property is claimed only once its rules are built and silent on the repaired tree)"
